@@ -3,8 +3,8 @@ from .. import core
 from .. import valuation as V
 
 ID = 'C12'
-RUNS = {'quick': 40000, 'thorough': 3000000}
-WALL_CAP = {'quick': 45, 'thorough': 1500}
+RUNS = {'quick': 30000, 'thorough': 3000000}
+WALL_CAP = {'quick': 70, 'thorough': 1500}
 BLOCK = 400
 RULE = ('runs = seeded OBJ sessions: histories of Equation construction (no rhs / term list / leading expression), '
         'AddTerm with every sign and bracket spelling, the Sector.AddVariable + AddTermToEquation path (opaque '
@@ -33,8 +33,15 @@ def atom(rng):
     return '%s/%s' % (rng.choice(NAMES), rng.choice(NAMES + ['4']))
 
 
+MAY_REJECT_FORMS = ['--{b}', '+-{b}', '-+{b}', '++{b}', '- -{b}']
+
+
 def spell(rng, body):
-    """A signed / bracketed spelling of a term; all of these must be accepted."""
+    """A signed / bracketed spelling of a term; all of the single-sign forms must be accepted. Double signs outside
+    brackets (what a caller gets by prefixing a sign to an already signed term) may be rejected, but if they are
+    accepted their value counts."""
+    if rng.random() < 0.06:
+        return rng.choice(MAY_REJECT_FORMS).format(b=body)
     form = rng.choice(['{b}', '{b}', '+{b}', '-{b}', '(-{b})', '-({b})', '({b})', '(+{b})', '-(-{b})', ' {b} ',
                        '- {b}', '+ ({b})'])
     return form.format(b=body)
@@ -270,6 +277,10 @@ def execute(case):
                         viol.append(core.violation(ID, 'rejected-op-changed-equation', 'rejected-op-changed-equation',
                                                    op=o, before=before, after=rhs_of(o['eq'])))
                         break
+                    t_ = o['term'].replace(' ', '')
+                    if t_[0:2] in ('--', '+-', '-+', '++'):
+                        stats['probes']['double_sign_rejected'] = 1
+                        continue
                     viol.append(core.violation(ID, 'valid-term-rejected', 'valid-term-rejected:' + type(ex).__name__,
                                                op=o, error=str(ex)[0:100]))
                     break
